@@ -183,7 +183,10 @@ class DbmDB(object):
     def set(self, task_id, dependency, value):
         """Store value in the DB."""
         if task_id not in self._db:
-            self._db[task_id] = {}
+            # load saved data (if any), other entries of the task must be kept
+            self.get(task_id, dependency)
+            if task_id not in self._db:
+                self._db[task_id] = {}
         self._db[task_id][dependency] = value
         self.dirty.add(task_id)
 
@@ -311,7 +314,8 @@ class SqliteDB(object):
     def set(self, task_id, dependency, value):
         """Store value in the DB."""
         if task_id not in self._cache:
-            self._cache[task_id] = {}
+            # load saved data (if any), other entries of the task must be kept
+            self._cache[task_id] = self._get_task_data(task_id) or {}
         self._cache[task_id][dependency] = value
         self._dirty.add(task_id)
 
